@@ -213,12 +213,35 @@ NOT_BUILT = "check not built yet in this session (planned, see DESIGN.md section
 ALL = [f"C{i:02d}" for i in range(1, 21)]
 
 
+# dimensions added during the seeded-change rounds (DESIGN.md 14.2 / 14.4), appended to the level text
+ADDED = {
+    "C01": "Cancellation is aimed at the n-th call of one operation and the step offset inside it is swept (quick: every 12th network / 40th in-memory scenario).",
+    "C02": "Also: return values no converter can encode, eager responses guarded by try/except Exception in the actor, time limits from 1 s to 3 days with fractional parts.",
+    "C03": "Half of the scenarios carry observers (yielding/slow/raising/sync subscribers) on the worker's connection; signal emissions are counted against the recorded calls.",
+    "C05": "Half of the consumers call consume() once and wait (as a worker does); 20% of the scenarios enqueue a far-future message first and sooner-due ones while the consumer idles.",
+    "C06": "Also: 2-4 recurring jobs on one slot grid; a results broker stalling for 0.6/1.3 periods; a stop request during an iteration with the forced cancellation placed at every loop step 0-7 after the body's end.",
+    "C07": "Sequence mode: one worker, several jobs reusing an args id / message id one after the other or enqueued in a burst (same id on two queues), stalling arguments-bucket store; payloads larger than an AMQP frame.",
+    "C09": "Also: a second, saturated worker with another topic on the same in-memory queue; actor bodies ending with CancelledError (in-memory, Redis).",
+    "C10": "graceful_shutdown_time 60 / 0.2 / 0.02 s, i.e. also shorter than the executions running when the limit is reached.",
+    "C11": "A quarter of the jobs (own and foreign) are deferred until one common instant.",
+    "C12": "An actor start after the expiry is judged whether the message was taken late or expired while waiting for a free slot; the ttl clock of retried messages is compared with the recorder's latest scheduling.",
+    "C13": "Slow I/O: a result store stalls for 20 ms - 5 s (every store in turn for every 10th scenario); the producer polls Job.result while the chains run.",
+    "C14": "The holder's reject/ack and its consumer's finish() overlap at offsets -4..+4 loop steps.",
+    "C15": "Another task pauses/unpauses the consumer while consume() waits (in-memory, Redis); messages deferred until a past instant are ordinary FIFO members.",
+    "C17": "Stop mode on all three brokers: C03's stop sweep with 1-6 observers, C03's conservation oracle; calls that leave optional arguments out; raising subscribers whose text contains braces (repid's logger is live, into a sink).",
+    "C18": "Message parameters before or after the Depends parameters; providers whose value is an exception object.",
+    "C20": "Seeded cut positions inside the final CRLFCRLF; GETs during the graceful shutdown after a consumer failure; the same Worker run a second time.",
+}
+
+
 def main():
     checks = []
     for pid in ALL:
         if pid not in CHECKS:
             continue
         level, technique, text, note, ref = CHECKS[pid]
+        if pid in ADDED:
+            text = text + " " + ADDED[pid]
         checks.append({
             "property_id": pid,
             "quick_cmd": f"./check {pid} --tier quick",
